@@ -60,7 +60,7 @@ namespace ratio
     /**
      * Adds the resolver 'r' to this flaw.
      */
-    void add_resolver(resolver &r);
+    void add_resolver(resolver &r, const bool &rho_implies_phi = true); // 'rho_implies_phi' must be false when rho is a literal with a meaning of its own (e.g., an ordering between two atoms) which can hold whether or not this flaw is in the plan..
 
   private:
     solver &slv;                                               // the solver this flaw belongs to..
